@@ -2,7 +2,6 @@
 
 from __future__ import annotations
 
-import re
 from collections.abc import Sequence
 from typing import Any
 
@@ -288,9 +287,9 @@ class NetworkxGraph(AbstractGraph):
             most_specific_aliased_module = next(
                 module
                 for module in sorted_aliased_modules
-                if module_name.startswith(module)
+                if module_name == module or module_name.startswith(f"{module}.")
             )
-            alias = re.sub(rf"^{most_specific_aliased_module}", "", module_name)
+            alias = module_name[len(most_specific_aliased_module) :]
             alias = aliases[most_specific_aliased_module] + alias
             return alias
 
